@@ -118,3 +118,72 @@ package metric
 //@        v3_env_k(ver, av, ac, pr, ui, s, c, i, a, cr, ir, ar, e, rl, rc) == v3_outer_k(v3_env_inner_k(ver, av, ac, pr, ui, s, c, i, a, cr, ir, ar), e, rl, rc)
 //@ lemma v3_temporal_compose[C02]: forall av int, ac int, pr int, ui int, s int, c int, i int, a int, e int, rl int, rc int ::
 //@        v3_temporal_k(av, ac, pr, ui, s, c, i, a, e, rl, rc) == v3_outer_k(v3_base_k(av, ac, pr, ui, s, c, i, a), e, rl, rc)
+
+// ---------------------------------------------------------------------------------------------------------------
+// rounding helper, severity (C06)
+
+// roundUp is inlined at its call sites (the score obligations need its exact value); its own contract, for every
+// double in [0, 10]: the result is one of the 101 grid doubles tenth(0..100), not below the input (up to the 1e-5
+// tolerance of the v3.1 Appendix A algorithm) and less than 0.1 above it. Proved symbolically (bit-blasted Float64).
+//@ func roundUp(input float64) float64
+//@   inline
+//@   modifies nothing
+//@   ensures[C06r] input >= 0.0 && input <= 10.0 ==> result >= 0.0 && result <= 10.0
+//@   ensures[C06r] input >= 0.0 && input <= 10.0 ==> result >= input - 0.00001 && result <= input + 0.10001
+
+//@ func severity(score float64) Severity
+//@   modifies nothing
+//@   ensures[C06] score != score ==> result == SeverityUnknown
+//@   ensures[C06] score <= 0.0 ==> result == SeverityNone
+//@   ensures[C06] score > 0.0 && score < 4.0 ==> result == SeverityLow
+//@   ensures[C06] score >= 4.0 && score < 7.0 ==> result == SeverityMedium
+//@   ensures[C06] score >= 7.0 && score < 9.0 ==> result == SeverityHigh
+//@   ensures[C06] score >= 9.0 ==> result == SeverityCritical
+
+//@ func (sv Severity) String() string
+//@   modifies nothing
+//@   ensures[C06] sv == SeverityNone ==> result == "None"
+//@   ensures[C06] sv == SeverityLow ==> result == "Low"
+//@   ensures[C06] sv == SeverityMedium ==> result == "Medium"
+//@   ensures[C06] sv == SeverityHigh ==> result == "High"
+//@   ensures[C06] sv == SeverityCritical ==> result == "Critical"
+//@   ensures[C06] sv < SeverityNone || sv > SeverityCritical ==> result == "Unknown"
+
+// Severity() of each level is the band of that level's own score: ks is the ghost integer with <level>.Score() === tenth(ks).
+//@ func (bm *Base) Severity() Severity
+//@   requires bm == nil || inv_v3Base(bm)
+//@   modifies nothing
+//@   ensures[C12] !v3BaseKnown(bm) ==> result == SeverityNone
+//@   ensures[C06s] v3BaseOK(bm) ==> result == v3_sev_of_k(ks)
+//@   family sev[C06s] when v3BaseOK(bm): ; replace Base.Score#0 grid 0 100 as ks
+
+//@ func (tm *Temporal) Severity() Severity
+//@   requires tm == nil || inv_v3Temporal(tm)
+//@   modifies nothing
+//@   ensures[C12] !v3TemporalKnown(tm) ==> result == SeverityNone
+//@   ensures[C06s] v3TemporalOK(tm) ==> result == v3_sev_of_k(ks)
+//@   family sev[C06s] when v3TemporalOK(tm): ; replace Temporal.Score#0 grid 0 100 as ks
+
+//@ func (em *Environmental) Severity() Severity
+//@   requires em == nil || inv_v3Env(em)
+//@   modifies nothing
+//@   ensures[C12] !v3EnvKnown(em) ==> result == SeverityNone
+//@   ensures[C06s] v3EnvOK(em) ==> result == v3_sev_of_k(ks)
+//@   family sev[C06s] when v3EnvOK(em): ; replace Environmental.Score#0 grid 0 100 as ks
+
+// every grid value prints with at most one decimal digit (strconv.FormatFloat(x, 'f', -1, 64) as used by the report layer)
+//@ lemma v3_grid_prints[C06] over k in int.0..100 : fmt_f64(tenth(k)) == dec1(k)
+
+// ---------------------------------------------------------------------------------------------------------------
+// C13: Not Defined neutrality on the specification side (the code side is carried by the score families)
+
+// With all environmental metrics Not Defined the environmental equations collapse to the temporal ones, except for
+// scope-changed v3.1 vectors (different polynomial): same zero cut-off and same inner Roundup.
+//@ lemma v3_env_neutral[C13] over ver in v3.VER, av in v3.AV, ac in v3.AC, pr in v3.PR, ui in v3.UI, s in v3.S, c in v3.C, i in v3.I, a in v3.A :
+//@        !(v3_changed(s) && ver == V3_1) ==>
+//@           ((v3_env_impact(ver, s, c, i, a, v3_CR_X, v3_IR_X, v3_AR_X) <= 0.0) <==> (v3_impact(s, v3_iss(c, i, a)) <= 0.0))
+//@           && (v3_impact(s, v3_iss(c, i, a)) > 0.0 ==> v3_env_inner_k(ver, av, ac, pr, ui, s, c, i, a, v3_CR_X, v3_IR_X, v3_AR_X) == v3_base_k(av, ac, pr, ui, s, c, i, a))
+//@ lemma v3_eff_neutral[C13]: forall b int :: eff_v3_AV(v3_MAV_X, b) == b && eff_v3_AC(v3_MAC_X, b) == b && eff_v3_PR(v3_MPR_X, b) == b && eff_v3_UI(v3_MUI_X, b) == b
+//@        && eff_v3_S(v3_MS_X, b) == b && eff_v3_C(v3_MC_X, b) == b && eff_v3_I(v3_MI_X, b) == b && eff_v3_A(v3_MA_X, b) == b
+//@ lemma v3_temporal_neutral[C13] over k in int.0..100 : v3_outer_k(k, v3_E_X, v3_RL_X, v3_RC_X) == k
+//@ lemma v3_temporal_le_base[C13] over k in int.0..100, e in v3.E, rl in v3.RL, rc in v3.RC : v3_outer_k(k, e, rl, rc) <= k
